@@ -161,6 +161,8 @@ struct World {
     dirs: BTreeSet<String>,
     chunk_len: usize,
     hist: Vec<String>,
+    /// the Lean-side description of the last operation (driver request `fs step …`)
+    lean_op: Option<String>,
 }
 
 fn canon_path(fs: Fs, p: &str) -> String {
@@ -368,7 +370,7 @@ pub struct FsRun<'a> { pub ctx: &'a mut Ctx, pub focus: Focus }
 
 pub fn run(ctx: &mut Ctx, focus: Focus) {
     let cfgs = all_cfgs(ctx.tier_thorough);
-    let n_hist = match focus { Focus::C06 => ctx.n(30, 400), _ => ctx.n(48, 900) };
+    let n_hist = match focus { Focus::C06 => ctx.n(60, 600), _ => ctx.n(90, 1500) };
     let mut rng = Rng::new(ctx.seed ^ (focus as u64) << 32);
     let mut drv = Drv::spawn();
     if drv.is_none() { ctx.out.count("driver-missing"); }
@@ -376,7 +378,7 @@ pub fn run(ctx: &mut Ctx, focus: Focus) {
         let mut crng = rng.fork(idx as u64);
         if !ctx.out.wants(idx) { continue; }
         // flat configurations (with the Lean tie) get two thirds of the histories
-        let flats: Vec<&VolCfg> = cfgs.iter().filter(|c| c.flat).collect();
+        let flats: Vec<&VolCfg> = cfgs.iter().filter(|c| c.flat || c.fs.is_cpm()).collect();
         let cfg = if idx % 3 != 2 { flats[(idx / 3 * 2 + idx % 3) % flats.len()].clone() } else { cfgs[(idx / 3) % cfgs.len()].clone() };
         let slow = matches!(cfg.container, "woz1" | "woz2" | "nib" | "2mg-nib") || cfg.kind == names::A2_HD_MAX;
         let steps = if slow { crng.range(4, 10) } else if ctx.tier_thorough { crng.range(10, 60) } else { crng.range(8, 36) };
@@ -438,7 +440,7 @@ fn one_history(ctx: &mut Ctx, focus: Focus, idx: usize, cfg: &VolCfg, steps: usi
         Ok(Err(e)) => { ctx.out.count(&format!("mkvol-error:{}:{}", cfgid, e)); return; }
         Err(p) => { let mut vd = Verdicts { out: &mut ctx.out, focus, idx, cfgid: cfgid.clone() }; vd.panic(&p, "format", &[]); return; }
     };
-    let mut w = World { cfg: cfg.clone(), disk, files: BTreeMap::new(), dirs: BTreeSet::new(), chunk_len: 0, hist: Vec::new() };
+    let mut w = World { cfg: cfg.clone(), disk, files: BTreeMap::new(), dirs: BTreeSet::new(), chunk_len: 0, hist: Vec::new(), lean_op: None };
     w.chunk_len = match guarded(|| w.disk.new_fimg(None, false, if cfg.fs.is_cpm() || cfg.fs == Fs::Fat { "A.TXT" } else { "A" })) { Ok(Ok(f)) => f.chunk_len, _ => 512 };
     let mut tie = LeanTie { prev: Vec::new(), opened: false };
     let use_lean = drv.is_some() && (cfg.flat || cfg.fs.is_cpm()) && lean_supported(cfg.fs);
@@ -454,7 +456,9 @@ fn one_history(ctx: &mut Ctx, focus: Focus, idx: usize, cfg: &VolCfg, steps: usi
     for step in 0..steps {
         let free = match w.free() { Ok(f) => f, Err(e) => { if e.contains(".rs:") { vd.panic(&e, "stat", &w.hist.clone()); } return; } };
         let op = choose_op(&mut w, rng, free, focus);
+        w.lean_op = None;
         let desc = apply_op(&mut w, op, rng, free, &mut vd, &mut nontrivial);
+        let lean_op = w.lean_op.take().unwrap_or("other err".to_string());
         canon.extend_from_slice(desc.as_bytes());
         if desc.starts_with("ABORT") { break; }
         // after every step: bystanders (C02), listing (C05), soundness via Lean reader (C03, C04)
@@ -463,7 +467,10 @@ fn one_history(ctx: &mut Ctx, focus: Focus, idx: usize, cfg: &VolCfg, steps: usi
         if use_lean {
             if let Some(d) = drv.as_deref_mut() {
                 if let Some(e) = lean_sync(d, &mut tie, &mut w) { vd.out.count(&format!("lean-sync-error:{}", e)); }
-                else { lean_check(d, &mut w, &mut vd, &desc, Some(step)); }
+                else {
+                    if !desc.starts_with("skip") && !desc.starts_with("ABORT") { lean_step(d, &mut w, &mut vd, &lean_op, &desc); }
+                    lean_check(d, &mut w, &mut vd, &desc, Some(step));
+                }
             }
         }
     }
@@ -503,6 +510,16 @@ fn choose_op(w: &mut World, rng: &mut Rng, free: usize, focus: Focus) -> Op {
     Op::Delete(pick(rng))
 }
 
+fn hxs(s: &str) -> String { hx(s.as_bytes()) }
+fn type_num(fs: Fs, r: &RefFile) -> (usize, usize) {
+    match fs {
+        Fs::Dos33 | Fs::Dos32 => (r.ftype.first().map(|b| (*b & 0x7f) as usize).unwrap_or(0), 0),
+        Fs::Prodos => (r.ftype.first().map(|b| *b as usize).unwrap_or(0), r.aux.get(0).map(|b| *b as usize).unwrap_or(0) + 256 * r.aux.get(1).map(|b| *b as usize).unwrap_or(0)),
+        Fs::Pascal => (r.ftype.get(0).map(|b| *b as usize).unwrap_or(0) + 256 * r.ftype.get(1).map(|b| *b as usize).unwrap_or(0), 0),
+        _ => (0, 0),
+    }
+}
+fn res_tok<T>(r: &Result<Result<T, String>, String>) -> &'static str { match r { Ok(Ok(_)) => "ok", _ => "err" } }
 fn hist_len_even(w: &World) -> bool { w.hist.len() % 2 == 0 }
 fn parent_of(p: &str) -> Option<String> { p.rfind('/').map(|i| p[..i].to_string()) }
 fn base_of(p: &str) -> String { match p.rfind('/') { Some(i) => p[i + 1..].to_string(), None => p.to_string() } }
@@ -555,6 +572,11 @@ fn apply_op(w: &mut World, op: Op, rng: &mut Rng, free: usize, vd: &mut Verdicts
             let res = guarded(|| w.disk.put(&fimg).map_err(|e| e.to_string()));
             let d = format!("put {} chunks={}{} eof={} type={} => {}", path, r.chunks.len(), if holes { "(holes)" } else { "" }, r.eof, hx(&r.ftype), match &res { Ok(Ok(_)) => "ok".to_string(), Ok(Err(e)) => format!("err:{}", err_class(e)), Err(_) => "PANIC".to_string() });
             w.hist.push(d.clone());
+            {
+                let (ty, aux) = type_num(fs, &r);
+                let cs = if res_tok(&res) == "ok" { r.chunks.iter().map(|(i, c)| format!("{}:{}", i, hx(c))).collect::<Vec<_>>().join(",") } else { "-".to_string() };
+                w.lean_op = Some(format!("put {} {} {} {} {} {}", hxs(&cp), res_tok(&res), r.eof, ty, aux, cs));
+            }
             match res {
                 Err(p) => { vd.panic(&p, "put", &w.hist.clone()); return format!("ABORT {}", d); }
                 Ok(Ok(_)) => {
@@ -591,6 +613,7 @@ fn apply_op(w: &mut World, op: Op, rng: &mut Rng, free: usize, vd: &mut Verdicts
             let res = match build_fimg(w, &cp, 1, false, 7, 1, rng) { Ok((f, _)) => guarded(|| w.disk.put(&f).map_err(|e| e.to_string())), Err(e) => Ok(Err(e)) };
             let d = format!("put-dup {} => {}", cp, match &res { Ok(Ok(_)) => "ok".to_string(), Ok(Err(e)) => format!("err:{}", err_class(e)), Err(_) => "PANIC".to_string() });
             w.hist.push(d.clone());
+            w.lean_op = Some(format!("put {} {} 0 0 0 -", hxs(&cp), res_tok(&res)));
             match res {
                 Err(p) => { vd.panic(&p, "put", &w.hist.clone()); return format!("ABORT {}", d); }
                 Ok(Ok(_)) => { vd.v(Focus::C05, false, "duplicate-put-refused", &format!("put onto existing {} succeeded", cp), &w.hist.clone()); return format!("ABORT {}", d); }
@@ -606,6 +629,7 @@ fn apply_op(w: &mut World, op: Op, rng: &mut Rng, free: usize, vd: &mut Verdicts
             let res = guarded(|| w.disk.delete(&cp).map_err(|e| e.to_string()));
             let d = format!("delete {}{} => {}", cp, if locked { "(locked)" } else { "" }, match &res { Ok(Ok(_)) => "ok".to_string(), Ok(Err(e)) => format!("err:{}", err_class(e)), Err(_) => "PANIC".to_string() });
             w.hist.push(d.clone());
+            w.lean_op = Some(format!("delete {} {}", hxs(&cp), res_tok(&res)));
             match res {
                 Err(p) => { vd.panic(&p, "delete", &w.hist.clone()); return format!("ABORT {}", d); }
                 Ok(Ok(_)) => {
@@ -632,6 +656,7 @@ fn apply_op(w: &mut World, op: Op, rng: &mut Rng, free: usize, vd: &mut Verdicts
             let res = guarded(|| w.disk.rename(&cp, &newbase_arg).map_err(|e| e.to_string()));
             let d = format!("rename {}{} -> {} => {}", cp, if locked { "(locked)" } else { "" }, newbase_arg, match &res { Ok(Ok(_)) => "ok".to_string(), Ok(Err(e)) => format!("err:{}", err_class(e)), Err(_) => "PANIC".to_string() });
             w.hist.push(d.clone());
+            w.lean_op = Some(format!("rename {} {} {}", hxs(&cp), hxs(&target), res_tok(&res)));
             match res {
                 Err(p) => { vd.panic(&p, "rename", &w.hist.clone()); return format!("ABORT {}", d); }
                 Ok(Ok(_)) => {
@@ -652,6 +677,10 @@ fn apply_op(w: &mut World, op: Op, rng: &mut Rng, free: usize, vd: &mut Verdicts
             let res = guarded(|| w.disk.rename(&a, &nb_arg).map_err(|e| e.to_string()));
             let d = format!("rename-onto {} -> {} => {}", a, nb_arg, match &res { Ok(Ok(_)) => "ok".to_string(), Ok(Err(e)) => format!("err:{}", err_class(e)), Err(_) => "PANIC".to_string() });
             w.hist.push(d.clone());
+            {
+                let tgt = if fs.is_cpm() { canon_path(fs, &nb_arg) } else { match parent_of(&a) { Some(par) => format!("{}/{}", par, nb), None => nb.clone() } };
+                w.lean_op = Some(format!("rename {} {} {}", hxs(&a), hxs(&tgt), res_tok(&res)));
+            }
             match res {
                 Err(p) => { vd.panic(&p, "rename", &w.hist.clone()); return format!("ABORT {}", d); }
                 Ok(Ok(_)) => {
@@ -678,6 +707,7 @@ fn apply_op(w: &mut World, op: Op, rng: &mut Rng, free: usize, vd: &mut Verdicts
             let res = guarded(|| w.disk.retype(&cp, &typ, &sub).map_err(|e| e.to_string()));
             let d = format!("retype {} {} {} => {}", cp, typ, sub, match &res { Ok(Ok(_)) => "ok".to_string(), Ok(Err(e)) => format!("err:{}", err_class(e)), Err(_) => "PANIC".to_string() });
             w.hist.push(d.clone());
+            w.lean_op = Some(format!("retype {} {}", hxs(&cp), res_tok(&res)));
             match res {
                 Err(p) => { vd.panic(&p, "retype", &w.hist.clone()); return format!("ABORT {}", d); }
                 Ok(Ok(_)) => {
@@ -694,6 +724,7 @@ fn apply_op(w: &mut World, op: Op, rng: &mut Rng, free: usize, vd: &mut Verdicts
             let res = guarded(|| w.disk.create(&p).map_err(|e| e.to_string()));
             let d = format!("mkdir {} => {}", p, match &res { Ok(Ok(_)) => "ok".to_string(), Ok(Err(e)) => format!("err:{}", err_class(e)), Err(_) => "PANIC".to_string() });
             w.hist.push(d.clone());
+            w.lean_op = Some(format!("mkdir {} {}", hxs(&cp), res_tok(&res)));
             match res {
                 Err(pn) => { vd.panic(&pn, "mkdir", &w.hist.clone()); return format!("ABORT {}", d); }
                 Ok(Ok(_)) => { if dup { vd.v(Focus::C05, false, "duplicate-mkdir-refused", &format!("mkdir onto existing {}", cp), &w.hist.clone()); return format!("ABORT {}", d); } w.dirs.insert(cp); }
@@ -728,6 +759,7 @@ fn toggle_lock(w: &mut World, cp: String, vd: &mut Verdicts) -> String {
     let res = if was { guarded(|| w.disk.unlock(&cp).map_err(|e| e.to_string())) } else { guarded(|| w.disk.lock(&cp).map_err(|e| e.to_string())) };
     let d = format!("{} {} => {}", if was { "unlock" } else { "lock" }, cp, match &res { Ok(Ok(_)) => "ok".to_string(), Ok(Err(e)) => format!("err:{}", err_class(e)), Err(_) => "PANIC".to_string() });
     w.hist.push(d.clone());
+    w.lean_op = Some(format!("{} {} {}", if was { "unlock" } else { "lock" }, hxs(&cp), res_tok(&res)));
     match res {
         Err(p) => { vd.panic(&p, "lock", &w.hist.clone()); return format!("ABORT {}", d); }
         Ok(Ok(_)) => {
@@ -869,6 +901,30 @@ fn check_reload(w: &mut World, vd: &mut Verdicts, rng: &mut Rng) {
             }
         }
     }
+}
+
+/// refinement check of the step just taken: the Lean spec must allow (previous reading, op, result, current reading)
+fn lean_step(drv: &mut Drv, w: &mut World, vd: &mut Verdicts, lean_op: &str, desc: &str) {
+    let ans = drv.ask(&format!("fs step {}", lean_op));
+    let hist = w.hist.clone();
+    if ans == "ok" {
+        for f in [Focus::C01, Focus::C02, Focus::C03, Focus::C05, Focus::C19] { vd.v(f, true, "step-allowed-by-spec", "", &[]); }
+        return;
+    }
+    if !ans.starts_with("bad ") { vd.out.count(&format!("lean-step-answer:{}", ans.chars().take(40).collect::<String>())); return; }
+    let why = ans[4..].to_string();
+    let owners: &[Focus] = match why.as_str() {
+        "bystanders-unchanged" => &[Focus::C02],
+        "refused-changes-nothing" => &[Focus::C02, Focus::C05],
+        "put-content-reads-back" | "put-length-reads-back" | "put-type-reads-back" => &[Focus::C01],
+        "put-uses-free-units-only" => &[Focus::C02, Focus::C03],
+        "delete-target-not-protected" | "rename-source-not-protected" | "lock-sets-protection" | "unlock-clears-protection" => &[Focus::C19],
+        "post-volume-well-formed" => &[Focus::C03],
+        w if w.starts_with("unreadable:") => &[Focus::C03],
+        "rename-keeps-content" | "retype-keeps-content" => &[Focus::C01, Focus::C02],
+        _ => &[Focus::C05],
+    };
+    for f in owners { vd.v(*f, false, &format!("step-allowed-by-spec:{}", why.split(':').next().unwrap_or("")), &format!("spec refuses step [{}]: {}", desc, why), &hist); }
 }
 
 /// ask the Lean reader for its independent reading and compare with what a2kit reports
